@@ -459,6 +459,8 @@ func runC06(tier string, r *Result) {
 		"[T]", "[strin]", "[stringy]", "[?]", "[(]", "[a]", "[ ]", "[string ]",
 		// a comment start with a NUL (or other control byte) in it: whatever follows on the line is comment text
 		"# \x00", "#\x00", "# \x1b", "#a\x00b ",
+		// ... and with a CR that no LF follows: a comment ends at the line feed, nowhere else
+		"# c\r", "#\r", "# c\r ", "#c\rd\r",
 		// names with an underscore where only field names may have one
 		"T_", "My_T", "T_x", "_", "_T"}
 	for ti, d := range treeSet(depth) {
